@@ -51,12 +51,16 @@ def p_blank(x):
         g2 = _d822.groups_t(deb822.get_paragraphs_as_field_groups(t2))
         c1 = dc.DebianCopyright.from_text(text)
         c2 = dc.DebianCopyright.from_text(t2)
+        k = (7, 1000, len(lines) + 3, 1)[len(text) % 4]
+        g3 = _d822.groups_offset(t2, k)
     except Exception as e:  # noqa
         return 'raises %s' % type(e).__name__
     Sset = set(S)
     want = [[[n, [[num, ('' if (num - 1) in Sset else v)] for num, v in ls]] for n, ls in g] for g in g1]
     if g2 != want:
         return 'line-tracking parser: blanking markers %r changes more than their text: %r vs %r' % (S, g2, want)
+    if g3 != g2:
+        return 'the numbered lines of the text, numbered from %d, parse to other paragraphs (%r) than the text (%r)' % (k + 1, g3, g2)
     if [type(p).__name__ for p in c1.paragraphs] != [type(p).__name__ for p in c2.paragraphs]:
         return 'paragraph types change: %r vs %r' % ([type(p).__name__ for p in c1.paragraphs], [type(p).__name__ for p in c2.paragraphs])
     for p1, p2 in zip(c1.paragraphs, c2.paragraphs):
